@@ -539,6 +539,35 @@ def run_cli(args, stdin=None, env=None, timeout=60, cwd=None):
     return p.returncode, p.stdout, p.stderr
 
 
+def run_cli_slow(args, env=None, timeout=120, cwd=None, first_wait=0.4, chunk=4096, pause=0.001):
+    """Run the real CLI with its stdout on a pipe that is read SLOWLY (nothing for `first_wait` seconds, then small reads with pauses):
+    the writer blocks on a full pipe, so whatever the program queues between redaction and output is exercised at its limits."""
+    import time as _t
+    e = dict(os.environ)
+    e.pop("VERIF_HARNESS", None)
+    if env:
+        e.update(env)
+    with open("/dev/null", "rb") as dn, open(os.devnull, "wb") as errsink:
+        p = subprocess.Popen([harness_bin()] + args, stdin=dn, stdout=subprocess.PIPE, stderr=errsink, env=e, cwd=cwd)
+        out = bytearray()
+        _t.sleep(first_wait)
+        t0 = _t.time()
+        while True:
+            b = p.stdout.read(chunk)
+            if not b:
+                break
+            out += b
+            if len(out) % (64 * chunk) < chunk:
+                _t.sleep(0.05)        # a longer stall now and then
+            else:
+                _t.sleep(pause)
+            if _t.time() - t0 > timeout:
+                p.kill()
+                break
+        rc = p.wait()
+    return rc, bytes(out)
+
+
 class SplitMix:
     """Deterministic PRNG: every random choice of a run derives from VERIF_SEED."""
 
